@@ -627,3 +627,59 @@ PROPS["C10"] = dict(
     assumptions=QUEUE_STUBS,
     trusted=["queue_layer.c"],
 )
+
+
+# ------------------------------------------------------------------------------------------------
+# C02 / C08: cross-thread free lists under rely/guarantee (lists_rg.c)
+LRG_ASSUME = ["interleavings at the granularity of atomic operations under sequential consistency; before every atomic access of the function under test the other threads take up to 2 steps (remote push, delayed-freeing hand-shake, owner take-over of either list, owner flag change); weak CAS may fail spuriously",
+              "4 blocks in one page; arbitrary initial distribution over live / page thread-free list / heap delayed list / owner-private; flags arbitrary (not FREEING at the start)",
+              "_mi_free_delayed_block replaced by a recording stub in the delayed-list drain"]
+
+
+def lrg_ob(id, entry, **kw):
+    kw.setdefault("unwind", 8)
+    kw.setdefault("timeout", 1200)
+    kw.setdefault("native_replay", False)
+    kw.setdefault("std_checks", False)
+    d = list(kw.pop("defines", [])) + ["MI_PRIM_THREAD_ID=verif_tid"]
+    return O(id, "lists_rg.c", entry, defines=d, **kw)
+
+
+def lists_obs(prefix):
+    return [
+        lrg_ob(prefix + ".remote_free", "h_remote_free", funcs=["mi_free_block_delayed_mt", "mi_block_set_next", "mi_block_set_nextx", "mi_tf_set_delayed", "mi_tf_set_block"], cost=200,
+               bounds="4 blocks, <=2 interfering steps in total, CAS retries unwound 8"),
+        lrg_ob(prefix + ".owner_collect", "h_owner_collect", funcs=["_mi_page_thread_free_collect", "mi_block_next", "mi_tf_block"], cost=200,
+               bounds="4 blocks, <=2 interfering steps"),
+        lrg_ob(prefix + ".owner_delayed", "h_owner_delayed", replace={"_mi_free_delayed_block": "stub_free_delayed_block"}, funcs=["_mi_heap_delayed_free_partial", "mi_block_nextx"], cost=200,
+               bounds="4 blocks, <=2 interfering steps"),
+    ]
+
+
+def c02():
+    return lists_obs("C02") + page_obs("C02", [E_COLLECT, E_MALLOC], sizes=((32, 5),), flavours=("release",))
+
+
+PROPS["C02"] = dict(
+    obligations=c02,
+    bounds="one page of 4 blocks shared between the owner and any number of remote threads; at most 2 interfering steps per call; plus the sequential page lemmas (collect recount, pop only from the free list)",
+    outside="weak memory orders; more than 2 interfering steps per call; the reclaim-on-free path and abandoned segments (C09); composition 'a block is handed out again at most once per free' combines these with C01.malloc",
+    assumptions=LRG_ASSUME + PAGE_STUBS,
+    trusted=["lists_rg.c rely/guarantee encoding (ghost block locations)"],
+)
+
+
+E_FREE_DELAYED = ("h_free_delayed", ["_mi_free_delayed_block", "_mi_page_try_use_delayed_free", "_mi_page_free_collect", "mi_free_block_local"])
+
+
+def c08():
+    return lists_obs("C08") + page_obs("C08", [E_COLLECT, E_FREE_DELAYED], sizes=((32, 5),), flavours=("release",)) + queue_obs("C08", which=("fullmoves",))
+
+
+PROPS["C08"] = dict(
+    obligations=c08,
+    bounds="as C02 plus the full-queue moves of a page (3 pages)",
+    outside="the bounded-memory conclusion for producer/consumer workloads is the hand composition of 'no remote free is lost' + 'full pages return to their queue' + periodic drains; the NO_DELAYED_FREE flag invariant of types.h is not machine-checked",
+    assumptions=LRG_ASSUME + PAGE_STUBS + QUEUE_STUBS,
+    trusted=["lists_rg.c", "queue_layer.c", "page_layer.c"],
+)
